@@ -162,6 +162,14 @@ impl C10 {
                     if chunk.len() < 8 {
                         continue;
                     }
+                    // one in five is a recursion to 55-74 frames with up to 200 live temporaries per
+                    // frame (the C02 depth generator, recorded-finding shapes off): the value stack is
+                    // bounds-checked in some configurations and not in others
+                    if chunk[0] % 5 == 4 {
+                        let main = crate::props::c02::depth_program(&chunk[1..9.min(chunk.len())], false);
+                        progs.push(Prog { id: format!("d{}", k), main, modules: vec![], nontrivial: true });
+                        continue;
+                    }
                     let (main, modules) = crate::props::c02::matrix_program(chunk);
                     progs.push(Prog { id: format!("a{}", k), main, modules, nontrivial: true });
                 }
@@ -171,7 +179,17 @@ impl C10 {
                     if chunk.len() < 8 {
                         continue;
                     }
-                    let (prog, nontrivial_hint) = match chunk[0] % 8 {
+                    // values whose identity or enumeration order could depend on the collector's
+                    // schedule or on addresses: pairs of equal keys (ranges with equal bounds built with
+                    // other allocations in between) against the map, judged by the program itself
+                    if chunk[0] % 10 == 9 {
+                        let main = crate::props::refprops::key_pairs_case(&chunk[1..]);
+                        progs.push(Prog { id: format!("k{}", k), main, modules: vec![], nontrivial: false });
+                        continue;
+                    }
+                    let (prog, nontrivial_hint) = match chunk[0] % 10 {
+                        // map histories (the C12 generator): every enumeration order is printed
+                        8 => (crate::gen_map::program(&chunk[1..]).0, false),
                         0 => (gen::program(&chunk[1..], profiles::c09()).0, false),
                         1 => (gen::program(&chunk[1..], profiles::c07()).0, false),
                         2 => (gen::program(&chunk[1..], profiles::c06()).0, false),
@@ -221,7 +239,7 @@ impl Property for C10 {
     }
 
     fn rule(&self) -> String {
-        "cases: batches of up to 24 generated programs (fiber, class, scope, iteration and mixed profiles, plus allocation loops of >=700 iterations that cross the 64 KiB collection threshold many times) batches of 16 adversarial-operand programs (the C02 generator: every operator, built-in and method applied to boundary values — +-2^63, huge ranges, NaN, -0, 2^53 — with every failure caught and its class printed), and batches of 20 repository scripts (with a loader serving the script corpus). Each batch is run by the plain runner binary (no hooks, fresh interpreter per program) built in every configuration of the matrix: quick = {dev, release, release+safe_stack+safe_active_fiber+safe_vm_opcodes+safe_class_lookup, release+debug_stress_gc}; thorough = dev + all 32 subsets of the five feature switches under release. Oracle: every configuration prints the same values and ends with the same outcome, error kind and messages (addresses normalised) as the first; a runner crash is a violation. Generated programs are first filtered to those on which the hooked in-process run agrees with the reference interpreter and that avoid the recorded exception defects. Non-trivial: the program switches fibers, recurses deeper than 8 frames, or is an allocation loop; distinct by batch text.".into()
+        "cases: batches of up to 24 generated programs (fiber, class, scope, iteration and mixed profiles, map histories of the C12 generator whose enumeration orders are printed, key-pair programs comparing ranges with equal bounds built with other allocations in between, plus allocation loops of >=700 iterations that cross the 64 KiB collection threshold many times) batches of 16 adversarial-operand programs (the C02 generator: every operator, built-in and method applied to boundary values — +-2^63, huge ranges, NaN, -0, 2^53 — with every failure caught and its class printed; one in five is instead a recursion to 55-74 frames with up to 200 live temporaries per frame), and batches of 20 repository scripts (with a loader serving the script corpus). Each batch is run by the plain runner binary (no hooks, fresh interpreter per program) built in every configuration of the matrix: quick = {dev, release, release+safe_stack+safe_active_fiber+safe_vm_opcodes+safe_class_lookup, release+debug_stress_gc}; thorough = dev + all 32 subsets of the five feature switches under release. Oracle: every configuration prints the same values and ends with the same outcome, error kind and messages (addresses normalised) as the first; a runner crash is a violation. Generated programs are first filtered to those on which the hooked in-process run agrees with the reference interpreter and that avoid the recorded exception defects. Non-trivial: the program switches fibers, recurses deeper than 8 frames, or is an allocation loop; distinct by batch text.".into()
     }
 
     fn assumptions(&self) -> Vec<String> {
